@@ -11,9 +11,16 @@ def run(tier):
     quick = tier == "quick"
     sd = vlib.seed()
     states = trans = 0
-    r = kl.shamir_laws(wd, rep, 5 if quick else 7, 3 if quick else 4)
+    # GF(7) with n <= 4 does not finish in half an hour: the thorough tier takes GF(7) n <= 3 and GF(5) n <= 4
+    r = kl.shamir_laws(wd, rep, 5 if quick else 7, 3)
+    if not quick:
+        r4 = kl.shamir_laws(wd, rep, 5, 4)
+        vlib.tlc_must_pass(r4, "ShamirLaws.tla GF(5) n<=4")
+        states_extra = r4["distinct"]
+    else:
+        states_extra = 0
     vlib.tlc_must_pass(r, "ShamirLaws.tla")
-    states += r["distinct"]; trans += r["generated"]
+    states += r["distinct"] + states_extra; trans += r["generated"]
     rep.notes.append("ShamirLaws.tla: RefreshKeepsKey and MixedEpochsMiss hold in %d configurations" % r["distinct"])
     worlds = []
     per = 80 if quick else 800
